@@ -167,6 +167,7 @@ impl DebugCheck {
             allow_breaks: rng.below(100) < self.breaks_pct,
             max_blocks: 1 + rng.usize_below(6),
             high_origin: rng.chance(1, 8),
+            tail_beyond_user: rng.chance(1, 30),
         };
         let program = gen::generate(&mut rng, &opts);
         let mix = (self.mix)();
@@ -186,7 +187,12 @@ impl DebugCheck {
         };
         let script = gen_script(&mut rng, &ctx, &mix, self.max_script, end);
         let transport = if with_input {
-            Transport::Arg
+            if end == EndStyle::Quit && rng.chance(1, 3) {
+                // Program input follows the script on the same stream
+                Transport::Stdin
+            } else {
+                Transport::Arg
+            }
         } else {
             match rng.below(20) {
                 0..=8 => Transport::Arg,
@@ -252,6 +258,9 @@ pub fn session_report(id: &str, cap: &Capture, scenario: &DebugScenario) -> Repo
     }
     if scenario.input_is_deliverable() && scenario.program.uses_input {
         report.hit("probe:program_reads_input_under_debugger");
+    }
+    if scenario.input_follows_script() {
+        report.hit("fault:program_input_follows_script_on_stdin");
     }
     if scenario.sep_seed != 0 {
         report.hit("fault:separator_mix");
